@@ -21,6 +21,12 @@
                         (`_own`): the names are read off the three methods (exact shapes), the
                         numbers off pymbolic/mapper/stringifier.py (third party, pinned in /venv),
                         where parenthesize_if_needed must still be `if enclosing_prec > my_prec`
+ * c03_prec_pow_*     : the precedence handed to the base (`_base`) and to the exponent (`_exp`) of a power and the
+                        one claimed for the power itself (`_own`); c03_power_paren = a base that is itself a
+                        power is printed in parentheses (base > own).  Two shapes: FortranExpressionMapper has
+                        no map_power (then pymbolic's StringifyMapper.map_power, pinned, prints: all three are
+                        PREC_POWER, `(a**b)**c` is printed `a**b**c`, which Fortran reads as a**(b**c)), or the
+                        map_power of fixes/C03_fortran_power_parentheses.patch (base: PREC_POWER + 1)
  * c03_helper_key     : the components of the cache key under which emit_inst_AssignFunctionCall
                         remembers the helper subroutine emitted for a called function, and under which
                         finish_emit emits it: (inst.function_id, arg_kinds) with arg_kinds the FULL
@@ -172,6 +178,39 @@ def logical_precedences(repo):
                 raise ShapeError("precedence constant %s not found in pymbolic" % nm)
             out.append(consts[nm])
     return out, names
+
+
+PYM_MAP_POWER = ["return self.parenthesize_if_needed(self.format('%s**%s', self.rec(expr.base, PREC_POWER, *args, **kwargs), "
+                 "self.rec(expr.exponent, PREC_POWER, *args, **kwargs)), enclosing_prec, PREC_POWER)"]
+MAP_POWER_NEW = ["from pymbolic.mapper.stringifier import PREC_POWER",
+                 "return self.parenthesize_if_needed(self.format('%s**%s', self.rec(expr.base, PREC_POWER + 1), "
+                 "self.rec(expr.exponent, PREC_POWER)), enclosing_prec, PREC_POWER)"]
+
+
+def power_precedences(repo):
+    """((base, exponent, own), parenthesised) of the printing of a power"""
+    ex = _parse(repo, "dagrt/codegen/expressions.py")
+    fm = _find_class(ex, "FortranExpressionMapper")
+    mp = [n for n in fm.body if isinstance(n, ast.FunctionDef) and n.name == "map_power"]
+    import pymbolic.mapper.stringifier as st
+    tree = ast.parse(open(st.__file__).read(), filename=st.__file__)
+    pw = [n.value.value for n in tree.body if isinstance(n, ast.Assign) and len(n.targets) == 1
+          and isinstance(n.targets[0], ast.Name) and n.targets[0].id == "PREC_POWER" and isinstance(n.value, ast.Constant)]
+    if len(pw) != 1 or not isinstance(pw[0], int) or pw[0] < 0:
+        raise ShapeError("pymbolic: PREC_POWER not found")
+    pw = pw[0]
+    if not mp:
+        if [b.id for b in fm.bases if isinstance(b, ast.Name)] != ["StringifyMapper"] or len(fm.bases) != 1:
+            raise ShapeError("expressions.py FortranExpressionMapper: unexpected base classes")
+        sm = _find_class(tree, "StringifyMapper")
+        body = _body(_find_def(sm, "map_power"))
+        if body != PYM_MAP_POWER:
+            raise ShapeError("pymbolic StringifyMapper.map_power: unrecognised body %r" % body)
+        return (pw, pw, pw), False
+    if len(mp) == 1 and _body(mp[0]) == MAP_POWER_NEW and [a.arg for a in mp[0].args.args] == ["self", "expr", "enclosing_prec"] \
+            and not mp[0].decorator_list:
+        return (pw + 1, pw, pw), True
+    raise ShapeError("expressions.py FortranExpressionMapper.map_power: unrecognised body %r" % _body(mp[0]))
 
 
 def helper_key(repo):
@@ -385,7 +424,7 @@ def facts(repo):
         ne = True
     else:
         raise ShapeError("expressions.py FortranExpressionMapper.map_comparison: unrecognised body %r" % _body(mc[0]))
-    return dict(ne=ne, cond=cond, ordered=ordered, go=guard_outside(repo), prec=logical_precedences(repo), hkey=helper_key(repo), templates=builtin_templates(repo), m1=m1, sw=sw, nf=nf, slots=slots, passes=passes)
+    return dict(ne=ne, cond=cond, ordered=ordered, go=guard_outside(repo), prec=logical_precedences(repo), pow=power_precedences(repo), hkey=helper_key(repo), templates=builtin_templates(repo), m1=m1, sw=sw, nf=nf, slots=slots, passes=passes)
 
 
 def generate(repo):
@@ -407,6 +446,12 @@ def generate(repo):
                % (names["map_logical_or"], names["map_logical_and"], names["map_logical_not"]))
     for nm, z in zip(("or_child", "or_own", "and_child", "and_own", "not_child", "not_own"), nums):
         out.append("Definition c03_prec_%s : nat := %d." % (nm, z))
+    (pb, px, po), paren = f["pow"]
+    out.append("(* FortranExpressionMapper.map_power (absent: pymbolic StringifyMapper.map_power) *)")
+    out.append("Definition c03_prec_pow_base : nat := %d." % pb)
+    out.append("Definition c03_prec_pow_exp : nat := %d." % px)
+    out.append("Definition c03_prec_pow_own : nat := %d." % po)
+    out.append("Definition c03_power_paren : bool := %s." % coq_bool(paren))
     out.append("(* fortran.py emit_inst_AssignFunctionCall / finish_emit: key of the helper-subroutine cache *)")
     out.append("Definition c03_helper_key : list string := %s." % coq_string_list(f["hkey"]))
     out.append("(* fortran.py built-in templates, pinned by hash (text not modelled) *)")
